@@ -37,9 +37,19 @@ Reject(r) ==
   \/ (r.kind = "inproc_old" /\ VGeq(Ver(r), <<3>>))
   \/ (VGeq(Ver(r), <<3>>) /\ ~r.hastype)
 
+\* rows with an injected failure of the simulator's own step (r.fail # "none"): the run fails with that error, every
+\* step request the simulator received is still valid for its version, and it received exactly the requests a
+\* current-version simulator failing at the same call receives (no request repeated, none after the failure)
+FailViol(r) ==
+  LET v == Ver(r)  want == IF VGeq(v, <<3>>) THEN 3 ELSE 2 IN
+  (IF ~r.failed_as_injected THEN {"C15_failure_of_the_simulator_not_reported_as_such"} ELSE {})
+  \cup (IF \E i \in 1..Len(r.nargs_all) : r.nargs_all[i] # want THEN {"C15_max_advance_wrongly_passed_or_dropped"} ELSE {})
+  \cup (IF ~r.sameobs THEN {"C15_sees_different_scheduling_or_data_than_current_version"} ELSE {})
+
 RowViol(n) ==
   LET r == Tab[n]  v == Ver(r) IN
-  IF Reject(r) THEN
+  IF r.fail # "none" /\ ~Reject(r) THEN FailViol(r)
+  ELSE IF Reject(r) THEN
      (IF r.out = "ok" THEN {"C15_simulator_that_must_be_rejected_was_started"} ELSE {})
      \cup (IF r.out = "other" THEN {"C15_rejected_with_wrong_error"} ELSE {})
   ELSE
